@@ -110,8 +110,64 @@ struct AotCWhole {
     localized: Arc<Vec<(isize, usize)>>,
 }
 
+/// Verification hook (`--cfg veryl_verif`): lets a harness choose, per thread,
+/// the exact dispatch call at which the compiled module "becomes ready".
+/// With the default (`set_swap_at(-1)`) nothing changes.
+#[cfg(veryl_verif)]
+pub mod verif_gate {
+    use std::cell::Cell;
+    thread_local! {
+        static SWAP_AT: Cell<i64> = const { Cell::new(-1) };
+        static CALLS: Cell<i64> = const { Cell::new(0) };
+        static WAIT_FAILED: Cell<bool> = const { Cell::new(false) };
+    }
+    /// `-1`: no gating.  `n >= 0`: the first `n` dispatch calls made on this
+    /// thread answer `NotReady`; call `n` waits for the background compile and
+    /// from then on the compiled code is used.  `i64::MAX`: never ready.
+    pub fn set_swap_at(n: i64) {
+        SWAP_AT.with(|c| c.set(n));
+        CALLS.with(|c| c.set(0));
+        WAIT_FAILED.with(|c| c.set(false));
+    }
+    /// dispatch calls seen on this thread since `set_swap_at`
+    pub fn calls() -> i64 {
+        CALLS.with(|c| c.get())
+    }
+    /// the compile did not finish while waiting (the run proves nothing)
+    pub fn wait_failed() -> bool {
+        WAIT_FAILED.with(|c| c.get())
+    }
+    pub(super) fn ready(cell: &super::emit::AotCell) -> bool {
+        let n = SWAP_AT.with(|c| c.get());
+        if n < 0 {
+            return true;
+        }
+        let k = CALLS.with(|c| {
+            let k = c.get();
+            c.set(k + 1);
+            k
+        });
+        if k < n {
+            return false;
+        }
+        let start = std::time::Instant::now();
+        while cell.get().is_none() {
+            if start.elapsed().as_secs() > 120 {
+                WAIT_FAILED.with(|c| c.set(true));
+                return false;
+            }
+            std::thread::sleep(std::time::Duration::from_millis(1));
+        }
+        true
+    }
+}
+
 impl CompiledWhole for AotCWhole {
     fn try_dispatch(&self, ff: *const u8, comb: *mut u8, log: *mut u8) -> DispatchOutcome {
+        #[cfg(veryl_verif)]
+        if !verif_gate::ready(&self.cell) {
+            return DispatchOutcome::NotReady;
+        }
         match self.cell.get() {
             Some(m) => {
                 // SAFETY: caller provides pointers valid for the
@@ -128,6 +184,10 @@ impl CompiledWhole for AotCWhole {
     }
 
     fn try_dispatch_const(&self, ff: *const u8, comb: *mut u8, log: *mut u8) -> DispatchOutcome {
+        #[cfg(veryl_verif)]
+        if !verif_gate::ready(&self.cell) {
+            return DispatchOutcome::NotReady;
+        }
         match self.cell.get() {
             Some(m) => {
                 if let Some(f) = m.const_func {
